@@ -115,6 +115,11 @@ def Tree.set (t : Tree) (p : BPath) (b : Bucket) : Tree := fun q => if q = p the
 
 def tget (t : Tree) (l : BPath × Bytes) : Option Bytes := bget (t l.1) l.2
 
+/-- ABSTRACTION of the byte bucket tree to the symbolic store's key space: the byte value found at the location of a
+    symbolic key (buckets, key-name bytes, little-endian index keys are gone; values stay bytes – they are related to the
+    symbolic terms by concretisation, `valBytes`) -/
+def absDb (C : BCrypto) (t : Tree) : Key → Option Bytes := fun K => tget t (loc C K)
+
 /-- run a db.go function on one bucket of the tree -/
 def onB (t : Tree) (p : BPath) (f : Bucket → Except Err Bucket) : Except Err Tree := (f (t p)).map (t.set p)
 
